@@ -78,11 +78,13 @@ impl Substance {
         } else {
             for prop in self.properties.properties.values() {
                 if name == prop.output_name {
-                    let input = (&prop.input / &self.amount)
+                    // output * (amount / input): the amount may be zero,
+                    // the sides of a property never are.
+                    let ratio = (&self.amount / &prop.input)
                         .ok_or_else(|| SubstanceGetError::Generic("Division by zero".to_owned()))?;
-                    if input.dimless() {
-                        let res = (&prop.output / &input).ok_or_else(|| {
-                            SubstanceGetError::Generic("Division by zero".to_owned())
+                    if ratio.dimless() {
+                        let res = (&prop.output * &ratio).ok_or_else(|| {
+                            SubstanceGetError::Generic("Exponent is too large".to_owned())
                         })?;
                         return Ok(res);
                     } else {
@@ -92,11 +94,11 @@ impl Substance {
                         ));
                     }
                 } else if name == prop.input_name {
-                    let output = (&prop.output / &self.amount)
+                    let ratio = (&self.amount / &prop.output)
                         .ok_or_else(|| SubstanceGetError::Generic("Division by zero".to_owned()))?;
-                    if output.dimless() {
-                        let res = (&prop.input / &output).ok_or_else(|| {
-                            SubstanceGetError::Generic("Division by zero".to_owned())
+                    if ratio.dimless() {
+                        let res = (&prop.input * &ratio).ok_or_else(|| {
+                            SubstanceGetError::Generic("Exponent is too large".to_owned())
                         })?;
                         return Ok(res);
                     } else {
